@@ -427,7 +427,7 @@ pub fn run_case(c: &PortCase, stats: &mut CaseStats) -> Result<(), (String, Stri
 const RULE: &str = "proptest portfolios: 2-8 banks (generated weights, isolated tier, e-mode tags/entries valid for the bank's liability weights, collateral-value caps, Pyth with EMA != spot and confidence / Switchboard / fixed oracles, SPL/Token-2022/transfer-fee mints, origination fee), 1-8 deposits, 0-4 borrows sized by the reference borrowing power, optional ReduceOnly collateral and stale collateral oracles; then one borrow or withdraw whose amount is bisected on the real program to the largest accepted value a*. Oracle: reference initial health (exact rationals + enclosure) on the real post-state: success => not definitely unhealthy and an isolated debt is the only debt; rejection with the risk-engine code at a*+1 => health after a* minus the value of a few more units is not clearly positive. Non-trivial = health binds (0 < a* < available, rejected with the risk-engine code) and at least one of e-mode / cap discount / confidence / >=2 debts / stale or reduce-only collateral is active; distinct by (features, positions, probe kind, bank count).";
 
 pub fn run(ctx: &Ctx) -> Report {
-    let cases: u32 = ctx.tier.pick(1500, 30_000);
+    let cases: u32 = ctx.tier.pick(3000, 30_000);
     let max_banks = ctx.tier.pick(8, 14);
     let mut rep = par_workers(ctx.threads, |wi| {
         let mut rep = Report::new(RULE);
